@@ -19,6 +19,16 @@ pub(crate) struct PatternSet {
     pub rest: bool,
 }
 
+/// `..` is the rest marker only when it stands alone, i.e. is followed by `,` or by the end of
+/// the set. `..5` and `..=5` are range patterns, as they are in every other position.
+fn peek_rest(content: syn::parse::ParseStream) -> bool {
+    if !content.peek(Token![..]) || content.peek(Token![..=]) {
+        return false;
+    }
+    let fork = content.fork();
+    fork.parse::<Token![..]>().is_ok() && (fork.is_empty() || fork.peek(Token![,]))
+}
+
 impl Parse for PatternSet {
     /// Parses a set pattern: #(pattern, pattern, ..)
     ///
@@ -46,7 +56,7 @@ impl Parse for PatternSet {
 
         while !content.is_empty() {
             // Check for rest pattern (..)
-            if content.peek(Token![..]) {
+            if peek_rest(&content) {
                 let _: Token![..] = content.parse()?;
                 rest = true;
                 // Optional trailing comma
@@ -65,7 +75,7 @@ impl Parse for PatternSet {
             let _: Token![,] = content.parse()?;
 
             // Rest pattern can appear after a comma
-            if content.peek(Token![..]) {
+            if peek_rest(&content) {
                 let _: Token![..] = content.parse()?;
                 rest = true;
                 break;
